@@ -220,7 +220,8 @@ Error query_rw_info(const BaseInst& inst, const Operand_* operands, size_t op_co
           uint32_t element_index = src_op.as<Vec>().element_index();
 
           uint32_t element_size = element_type_size_table[size_t(element_type)];
-          uint64_t access_mask = uint64_t(Support::lsb_mask<uint32_t>(element_size)) << (element_index * element_size);
+          uint32_t access_shift = element_index * element_size;
+          uint64_t access_mask = access_shift < 64u ? uint64_t(Support::lsb_mask<uint32_t>(element_size)) << access_shift : uint64_t(0);
 
           op._read_byte_mask &= access_mask;
           op._write_byte_mask &= access_mask;
